@@ -452,6 +452,10 @@ class World:
         if ract == 'describe':   # SECoP: 'describing .'; 'describe <module>' (an extension) echoes the module
             return None if spec == (rspec if rspec not in ('', '.') else '.') else 'C07/reply-specifier/describe'
         if spec != rspec:
+            # the node strips the decoded text: a specifier that consists of characters Python counts as white space
+            # (\x1c-\x1f, \x85, \xa0 ... - not stripped from the raw bytes) is no specifier for it; accepted either way
+            if rspec.strip() == '' and spec == '':
+                return None
             return f'C07/reply-specifier-not-echoed/{ract}'
         return None
 
